@@ -64,7 +64,7 @@ def spellings_ts(rng, truth, count):
     for j in range(count):
         v1ok = n <= 4 and truth["reference"] is None
         sp = {"version": 1 if (v1ok and rng.random() < 0.45) else 2,
-              "unit": rng.choice(["HZ", "KHZ", "MHZ", "GHZ"]),
+              "unit": rng.choice(["HZ", "KHZ", "MHZ", "GHZ", "HZ", "KHZ", "MHZ", "GHZ", "THZ"]),
               "fmt": rng.choice(["RI", "MA", "DB"]),
               "case": rng.choice(["asis", "upper", "lower", "random"]),
               "decorate": rng.random() < 0.6,
